@@ -1102,8 +1102,8 @@ class C11(core.Check):
         "counter-clockwise, blocks right-handed, rim on the circle; over R with the source's constants); round 6c: the "
         "same for WrappedDisk, Oval and Grid (faces counter-clockwise, ExtrudedShape right-handed); round 6d: RevolvedShape "
         "of any mapped sketch in a half-plane through the axis is right-handed for every sweep below pi (general theorem, "
-        "instantiated to the four fan disk classes and to WrappedDisk for every axis in the sketch plane outside the sketch's "
-        "bounding circle; Oval not instantiated); Elbow, Hemisphere, rings beyond one segment, "
+        "instantiated to the four fan disk classes, WrappedDisk and Oval for every axis in the sketch plane outside the "
+        "sketch's bounding circle); Elbow, Hemisphere, rings beyond one segment, "
         "spline sketches, the cusp shear of the joints and the distinctness of the generated points stay validator-only; "
         "joints: a uniform hand model for every branch count, equal to the probes for 2..6 (decide), compared with the "
         "implementation for every generated count (2..7 quick, 8, 9 thorough), choppable for 2..12 by evaluation; no "
